@@ -387,7 +387,13 @@ ApplyPlace(W, S, d) ==            \* returns [S, evs, err, cl]
               ELSE \* in-place re-timing of the cached event + reheapify
                    R(FutSet(QAdd(QRemove(DoSchedule(S, d), FutEvent(S, t)), pev), t, d.tm), <<>>, "")
          ELSE ApplySkip(W, S, d, W.fl.drop_skipped)
-    ELSE IF st = RUNNING THEN R(S, <<>>, "preemption_not_modelled")
+    ELSE IF st = RUNNING
+    THEN IF d.placed
+         THEN IF d.pool # S.ts[t].pool \/ d.tm > S.now
+              THEN R(S, <<Ev(E_PREEMPT, S.now, t, 0, NoPlan),
+                          Ev(E_MIGRATE, d.tm, t, 0, [pool |-> d.pool, wk |-> d.wk, sd |-> d.sd, tm |-> d.tm])>>, "")
+              ELSE R(S, <<>>, "")
+         ELSE R(S, <<Ev(E_PREEMPT, S.now, t, 0, NoPlan)>>, "")
     ELSE IF st = PREEMPTED THEN R(S, <<>>, "NotImplementedError")
     ELSE R(S, <<>>, "")
 
@@ -478,6 +484,30 @@ HUpdateWorkload(W, S, B) ==
         nxt == IF W.fl.update_interval = -1 THEN Max2(maxRel, S.now) + 1 ELSE S.now + W.fl.update_interval
     IN  Ok(QAddAll(S1, gev \o rev \o <<Ev(E_UPDATE, nxt, 0, 0, NoPlan)>>))
 
+\* TASK_PREEMPT: remove the task from its pool, Task.preempt
+HTaskPreempt(W, S, t) ==
+    LET k == WorkerOf(S, t) IN
+    IF k = 0 \/ S.ts[t].pool = 0 THEN Err(S, "preempt_not_placed")
+    ELSE IF S.ts[t].st # RUNNING THEN Err(RemoveFromWorker(S, k, t), "preempt_bad_state")
+    ELSE Ok([RemoveFromWorker(S, k, t) EXCEPT !.ts[t].st = PREEMPTED, !.ts[t].ppool = S.ts[t].pool, !.ts[t].pool = 0])
+
+\* WorkerPool.place_task(task) without strategy / worker: first worker (pool order) x first strategy (task order) that fits
+AnyFit(W, S, p, t) ==      \* <<worker index, strategy index>> or <<0, 0>>
+    LET ws == PoolWorkers(S, p)
+        cands == Flatten([i \in 1..Len(ws) |-> [j \in 1..Len(S.tk[t].strats) |-> <<ws[i], j>>]])
+        ok == SelectSeq(cands, LAMBDA c : CanAcc(W, S, c[1], [S.tk[t].strats[c[2]] EXCEPT !.bid = 0]))
+    IN  IF ok = <<>> THEN <<0, 0>> ELSE Head(ok)
+
+\* TASK_MIGRATION: place the preempted task on the new pool and resume it
+HTaskMigration(W, S, e) ==
+    LET t == e.t IN
+    IF S.ts[t].st # PREEMPTED THEN Err(S, "assert_migration_of_non_preempted")
+    ELSE LET f == AnyFit(W, S, e.pl.pool, t) IN
+         IF f[1] = 0 THEN Ok(S)
+         ELSE LET sd == [S.tk[t].strats[f[2]] EXCEPT !.bid = 0]
+                  S1 == PlaceOnWorker(W, S, f[1], t, sd)
+              IN  Ok([S1 EXCEPT !.ts[t].st = RUNNING, !.ts[t].last = S.now, !.ts[t].pool = e.pl.pool])
+
 \* dispatch (Simulator.__handle_event); the popped event has been removed from S.q
 Handle(W, S, e, B) ==
     CASE e.ty = E_START      -> Ok(S)
@@ -487,6 +517,8 @@ Handle(W, S, e, B) ==
       [] e.ty = E_RELEASE    -> HTaskRelease(W, S, e.t)
       [] e.ty = E_UPDATE     -> HUpdateWorkload(W, S, B)
       [] e.ty = E_PLACEMENT  -> HTaskPlacement(W, S, e, B)
+      [] e.ty = E_PREEMPT    -> HTaskPreempt(W, S, e.t)
+      [] e.ty = E_MIGRATE    -> HTaskMigration(W, S, e)
       [] e.ty = E_SCHED_START -> HSchedStart(W, S, B)
       [] e.ty = E_SCHED_FIN  -> HSchedFinished(W, S, B)
       [] e.ty = E_END        -> Ok(S)
@@ -526,7 +558,7 @@ C03_CompletedTiming(S) ==
     \A t \in 1..NT(S) : S.ts[t].st = COMPLETED => S.ts[t].fin >= S.ts[t].start /\ WorkerOf(S, t) = 0
 \* C03: completion exactly at start + the chosen strategy's runtime (stretched by at most the variance)
 C03_ExactCompletion(W, S) ==
-    \A t \in 1..NT(S) : S.ts[t].st = COMPLETED =>
+    \A t \in 1..NT(S) : (S.ts[t].st = COMPLETED /\ S.ts[t].ppool = 0) =>
         LET r == S.ts[t].plan.sd.rt  d == S.ts[t].fin - S.ts[t].start IN
         IF W.fl.variance = 0 THEN d = r
         ELSE 100 * d >= 100 * r - 50 /\ 100 * d <= 100 * r + r * W.fl.variance + 50
@@ -549,7 +581,8 @@ LegalEdge(a, b) ==
     \/ a = VIRTUAL /\ b \in {RELEASED, SCHEDULED, CANCELLED}
     \/ a = RELEASED /\ b \in {SCHEDULED, CANCELLED}
     \/ a = SCHEDULED /\ b \in {RUNNING, RELEASED, VIRTUAL, CANCELLED}
-    \/ a = RUNNING /\ b \in {COMPLETED}
+    \/ a = RUNNING /\ b \in {COMPLETED, PREEMPTED, EVICTED}
+    \/ a = PREEMPTED /\ b \in {RUNNING, EVICTED}
 ----------------------------------------------------------------------------
 (* C18: the scheduling frontier -- TaskGraph.get_schedulable_tasks transcribed.     *)
 (* Graph.topological_sort: depth-first post-order over the nodes in insertion       *)
@@ -731,6 +764,13 @@ RowsOf(W, S0, e, B, S2) ==
                  THEN (IF S0.ts[t].st = CANCELLED \/ GCancelled(S0, GraphOf(S0, t)) THEN <<>>
                        ELSE <<Row("TASK_NOT_READY", <<now, t, 1, e.pl.pool>>, <<>>)>>)
             ELSE <<Row("WORKER_NOT_READY", <<now, t, 1, e.pl.pool>>, <<>>)>>
+      [] e.ty = E_PREEMPT -> <<Row("TASK_PREEMPT", <<now, t, 1>>, <<>>)>>
+      [] e.ty = E_MIGRATE ->
+            IF S2.ts[t].st = RUNNING /\ S0.ts[t].st = PREEMPTED
+            THEN LET k == WorkerOf(S2, t) IN
+                 <<Row("TASK_MIGRATED", <<now, t, 1, S0.ts[t].ppool, e.pl.pool>>,
+                       AllocRes(W, S2, k, S2.cl[k].occ[OccIdx(S2, k, t)].al))>>
+            ELSE <<>>
       [] e.ty = E_SCHED_START ->
             <<Row("SCHEDULER_START", <<now, Len(B.offered1), Len(AllPlaced(S0))>>, <<>>)>> \o UtilRows(W, S0, now)
       [] e.ty = E_SCHED_FIN ->
